@@ -158,9 +158,27 @@ fn gate_case(l: &mut Local, kind: Kind, fmt: u8, f: F, body: &[u8], pad: u8) {
                 }
             }
         }
-        Err(ObsErr::Fci(_)) => {
+        Err(ObsErr::Fci(e)) => {
             if matches_home {
-                l.hit("rejected by the matching FCI parser");
+                // Control information that is well-formed per RFC 4585/5104 for this very FCI type (at least one
+                // whole NACK/SLI word or FIR entry, an RPSI whose PB fits its bit string, an empty PLI) has a
+                // defined decoding; a parser that refuses it does not follow the RFC. Empty NACK/SLI/FIR lists,
+                // FIR bodies with a trailing half entry and everything else the RFC does not define stay free.
+                let must = match f {
+                    F::Nack | F::Sli => !body.is_empty(),
+                    F::Fir => !body.is_empty() && body.len() % 8 == 0,
+                    F::Rpsi => reference(f, body).is_some(),
+                    F::Pli => body.is_empty(),
+                };
+                if must {
+                    l.violation(
+                        format!("well-formed-fci-rejected:{}", f.name()),
+                        || hex_short(&pkt),
+                        || format!("parse_fci::<{}> under its own kind and format returns {:?}; the RFC decoding is {:?}", f.name(), e, reference(f, body)),
+                    );
+                } else {
+                    l.hit("rejected by the matching FCI parser");
+                }
             } else {
                 l.hit("gated out");
             }
@@ -180,7 +198,7 @@ fn home_case(l: &mut Local, f: F, body: &[u8], idx: u64) {
 }
 
 /// a body evaluated under all 2 x 32 (kind, format) gates and all 5 requested FCI types
-fn all_gates_case(l: &mut Local, body: &[u8]) {
+fn all_gates_case(l: &mut Local, body: &[u8], pad: u8) {
     l.evals += 1;
     l.states += 1;
     l.sample(|| format!("all gates, fci {}", hex_short(body)));
@@ -188,7 +206,7 @@ fn all_gates_case(l: &mut Local, body: &[u8]) {
     for kind in [Kind::Transport, Kind::Payload] {
         for fmt in 0..32u8 {
             for f in FS {
-                gate_case(l, kind, fmt, f, body, 0);
+                gate_case(l, kind, fmt, f, body, pad);
             }
         }
     }
@@ -235,7 +253,7 @@ pub fn c15(ctx: &mut Ctx) {
     ctx.bound("NACK single words", if thorough { "all 2^32 words" } else { "118 PIDs (0..=31, 0x1230..=0x123F, byte boundaries, 0xFFC0..=0xFFFF) x all 65536 BLP" });
     ctx.bound("SLI single words", if thorough { "all 2^32 words" } else { "walk alphabet + 37 high halves (16-bit walk) x all 2^16 low halves" });
     ctx.bound("lists", "NACK 2-3 words from a 12-word boundary set; FIR 0..=3 entries; RPSI byte0 x byte1 (all 65536) x lengths 4..=36; PLI 0/4/8");
-    ctx.bound("gating", "2 kinds x 32 formats x 5 FCI types on 60 boundary bodies");
+    ctx.bound("gating", "2 kinds x 32 formats x 5 FCI types x paddings {0,4,8,252} on 60 boundary bodies");
     ctx.assume("word lists longer than 3 words only through the builder-made packets of C05");
 
     // NACK single words
@@ -339,7 +357,9 @@ pub fn c15(ctx: &mut Ctx) {
         gate_bodies.push(vec![pb, 0x80, 0xAA, 0xBB, 1, 2, 3, 4]);
     }
     let ng = gate_bodies.len() as u64;
-    ctx.run_space("all-gates-x-boundary-bodies", ng, move |idx, l| all_gates_case(l, &gate_bodies[idx as usize]));
+    // every gate is also tried with the padding bit set (paddings 4, 8, 252): the format number shares its byte
+    // with the padding bit
+    ctx.run_space("all-gates-x-boundary-bodies-x-padding", ng * 4, move |idx, l| all_gates_case(l, &gate_bodies[(idx / 4) as usize], [0u8, 4, 8, 252][(idx % 4) as usize]));
     // direct FCI parsers
     let sp = bytes::fci_raw_space();
     let get = &sp.get;
